@@ -1471,6 +1471,7 @@ _SPL = UD + "scipy/log_normal.py"
 _OTW = UD + "openturns/weibull.py"
 _OTB = UD + "openturns/beta.py"
 WITNESSES = [
+    {"name": "seeded-C19-10", "file": "uncertainty/distributions/openturns/distribution.py", "old": "\n        self.__set_bounds(distribution)\n        if lower_bound is not None or upper_bound is not None:\n", "new": "\n        if lower_bound is not None or upper_bound is not None:\n", "expect": "19.9", "note": "OTDistribution no longer refreshes its bounds between the transformation and the"},
     {"name": "deterministic-path-drops-out", "file": PS, "old": "return super().normalize_vect(x_vect, minus_lb=minus_lb, out=out)", "new": "return super().normalize_vect(x_vect, minus_lb=minus_lb)", "expect": "19.1"},
     {"name": "affine-part-drops-no-check", "file": PS, "old": "            x_vect, minus_lb=minus_lb, no_check=no_check\n        )\n        x_u = ", "new": "            x_vect, minus_lb=minus_lb\n        )\n        x_u = ", "expect": "19.1"},
     {"name": "untransform-uses-cdf", "file": PS, "old": "data_sizes, data_names), inverse=True", "new": "data_sizes, data_names), inverse=False", "expect": "19.2"},
